@@ -19,6 +19,9 @@ class CacheProp(Prop):
         "cost 0); sweeps invoked white-box with the real ticker disabled; frequency estimates set white-box",
         "Go's select between buffered items and the stop signal is observed and fed to the model (annotate)",
         "cost arithmetic in unbounded Z (no int64 overflow); callbacks are pure and do not re-enter the cache",
+        "synchronisation skeleton (mutex / channel operations, select, go, calls of machine steps, in source order) of the "
+        "modelled functions re-extracted from /repo by tools/lockshape (go/ast) and compared with lib/lockshape.expected: "
+        "syntactic tie, not a proof of atomicity",
     ]
 
     def probe(self, ctx):
